@@ -205,7 +205,7 @@ let run_case (toks : string list) : string =
     let obs = Some ((nat_of_int (int_of_string l), nat_of_int (int_of_string fz)), z_of_dec o) in
     spec_locate ws off mf lo ls h obs
   | ["SPEC_LOCATE"; ws; off; mf; lo; ls; h; "NOTFOUND"] -> spec_locate ws off mf lo ls h None
-  | ["SPEC_APPLY"; os; ls; hs; ovs; outb; failed; rejb] ->
+  | ["SPEC_APPLY"; creates; os; ls; hs; ovs; outb; failed; rejb] ->
     let o = opts_of os in
     let hk = hunks_of hs in
     let hk = if o.M.reverse_patch_opt then List.map M.reverse_hunk hk else hk in
@@ -213,7 +213,7 @@ let run_case (toks : string list) : string =
         match String.split_on_char ':' (String.sub s 1 (String.length s - 1)) with
         | [l; fz; oc] -> M.OApplied (z_of_dec l, nat_of_int (int_of_string fz), z_of_dec oc)
         | _ -> failwith "bad overdict" end in
-    let j = M.spec_apply o.M.ignore_whitespace o.M.max_fuzz o.M.newline_output (lines_of ls) hk
+    let j = M.spec_apply (bool_of creates) o.M.ignore_whitespace o.M.max_fuzz o.M.newline_output (lines_of ls) hk
               (List.map ov_of (split ',' ovs)) (unhex outb) (nat_of_int (int_of_string failed)) (unhex rejb) in
     Printf.sprintf "SPEC C02=%s C03=%s C04=%s" (b01 j.M.j_c02) (b01 j.M.j_c03) (b01 j.M.j_c04)
   | ["PARSE1"; fmt; strip; b] ->
